@@ -168,6 +168,7 @@ def run_track(case, ctx) -> None:
     rng = rng_for(case["seed"], "prog")
     prog = progs.gen_program(rng, case["profile"])
     m, src = progs.build_module(prog, case["seed"])
+    ctx.sample({"emitted_source": src})
     inputs = progs.make_inputs(prog, case["seed"] + 5)
     if case["zeros"]:
         for t in inputs:
